@@ -1,25 +1,26 @@
-(* C18: (function, outcome code) pairs of the built-in-function matrix that are recorded as PENDING FINDINGS
-   (harness/py/checks/c18.findings.md).  Hand-maintained and committed; the regenerated outcome table must be fine
-   everywhere outside this list (Props.C18_bif_no_panic_or_hang_partial), so a new panic/hang in any other function,
-   or a new kind of failure in a listed one, breaks the theorem.  When a defect is repaired in /repo its lines are
-   to be deleted here (stale lines only weaken the theorem; the check reports them in the evidence).
-   Codes: P=80 panic, H=72 hang, R=82 Go runtime death, I=73 internal-coding-error exit, S=83 not evaluated after hangs. *)
+(* C18: (function, outcome code) pairs of the built-in-function matrix that the regenerated outcome table may contain.
+   Hand-maintained and committed; the table must be fine everywhere outside this list
+   (Props.C18_bif_no_panic_or_hang_partial), so a new panic/hang in any other function, or a new kind of failure in a
+   listed one, breaks the theorem.  Lines whose pair no longer occurs in the table are reported by the check in the
+   evidence (`stale_exceptions`); they are deleted here by hand (nothing committed is edited at run time).
+   Codes: P=80 panic, H=72 hang, R=82 Go runtime death, I=73 internal-coding-error exit, S=83 not evaluated after hangs,
+   K=75 deliberately not evaluated (resource bound, see below).
+
+   History: ./, madd/msub/mmul/mexp (zero divisor), percentile/percentiles/median (interpolated index, options),
+   strptime family (slice bounds), leftpad/rightpad with an empty pad string, invqnorm(NaN) were listed here while they
+   were pending findings; they were repaired in /repo (94ff40520 83ceb0713 1f9ccfb45 444a9e97f e7744a7ab 913372130
+   5f69e3798 5cab7f8f6) and are no longer excepted: a regression breaks the theorem. *)
 From Miller Require Import Base.Bytes.
 Open Scope N_scope.
 
 Definition known_bad : list (bytes * N) := [
-  (* integer division by zero in int-only paths (./, madd, msub, mmul, mexp): repaired in /repo by 94ff40520 and
-     83ceb0713 while this check was being built; no longer excepted, so a regression breaks the theorem *)
-  (* interpolated percentile index out of range / non-numeric p *)
-  (B "percentile", 80); (B "percentiles", 80); (B "median", 80);
-  (B "percentile", 73); (B "percentiles", 73); (B "median", 73);
-  (* strptime: input shorter than a literal stretch of the format *)
-  (B "strptime", 80); (B "strptime_local", 80); (B "strpntime", 80); (B "strpntime_local", 80);
-  (* padding with an empty pad string loops for ever; huge target lengths exhaust memory *)
-  (B "leftpad", 72); (B "leftpad", 82); (B "leftpad", 83); (B "rightpad", 72); (B "rightpad", 82); (B "rightpad", 83);
-  (* absent / function values stored into collections: internal coding error exit *)
+  (* KNOWN FINDING bif-internal-error-absent-or-funct-into-collection:
+     absent / function values stored into collections end the process with an internal coding error *)
   (B "concat", 73); (B "append", 73); (B "fmtnum", 73); (B "fmtifnum", 73);
-  (* statistics over collections with non-numeric elements: internal coding error exit *)
-  (B "kurtosis", 73); (B "meaneb", 73); (B "skewness", 73); (B "stddev", 73); (B "variance", 73); (B "var", 73);
-  (B "invqnorm", 73)
+  (* KNOWN FINDING bif-internal-error-stats-non-numeric-element:
+     statistics over collections with non-numeric elements end the process with an internal coding error *)
+  (B "kurtosis", 73); (B "meaneb", 73); (B "skewness", 73); (B "stddev", 73); (B "variance", 73);
+  (* not a finding, a resource bound of the walk: leftpad/rightpad with target length 2^63-1 would build a string of that
+     length; those tuples (second argument = imax) are not evaluated and carry code K *)
+  (B "leftpad", 75); (B "rightpad", 75)
 ].
